@@ -89,6 +89,10 @@ fn inv(op: &Op, _ctx: &dyn Context, operands: &mut dyn CoordinateSet) -> usize {
                 continue 'points;
             }
         }
+
+        // Outside of the grid coverage, or no convergence: mark the
+        // coordinate as failed, as in the forward case
+        operands.set_coord(i, &Coor4D::nan());
     }
 
     successes
